@@ -38,7 +38,17 @@ PINNED_GRAMMAR = {
     'META_KEY': r'META_KEY: /[a-z][a-zA-Z0-9-_]+:/',
     'BOOL': r'BOOL.10: "TRUE" | "FALSE"',
     'NULL': r'NULL.10: "NULL"',
+    'POSTING_FLAG': r'POSTING_FLAG: /[*!&#?%PSTCURM]/',
+    'TRANSACTION_FLAG': r'TRANSACTION_FLAG: POSTING_FLAG | "txn"',
+    '_NON_ASCII': r'_NON_ASCII: /[^\x00-\x7f]/',
+    '_ACCOUNT_TYPE': r'_ACCOUNT_TYPE: (/[A-Z]/ | _NON_ASCII) (/[A-Za-z0-9\-]/ | _NON_ASCII)*',
+    '_ACCOUNT_NAME': r'_ACCOUNT_NAME: (/[A-Z0-9]/ | _NON_ASCII) (/[A-Za-z0-9\-]/ | _NON_ASCII)*',
+    'ACCOUNT': r'ACCOUNT: _ACCOUNT_TYPE (":" _ACCOUNT_NAME)+',
+    '_CURRENCY_BODY': r"_CURRENCY_BODY: /[A-Z0-9'._-]*/",
+    'CURRENCY': r'CURRENCY: /[A-Z]/ _CURRENCY_BODY /[A-Z0-9]/',
+    'INDENT': r'INDENT: /^/m WHITESPACE /(?=[^ \t\r\n])/s',
 }
+PINNED_CONTINUATION = {'CURRENCY': r'        | "/" _CURRENCY_BODY /[A-Z]/ [_CURRENCY_BODY /[A-Z0-9]/]'}
 PINNED_COMPILED = {
     'ESCAPED_STRING': '(?s:".*?(?<!\\\\)(\\\\\\\\)*?")',
     'INLINE_COMMENT': '(?s:;[^\r\n]*)',
@@ -50,17 +60,23 @@ PINNED_COMPILED = {
     'META_KEY': '[a-z][a-zA-Z0-9-_]+:',
     'BOOL': '(?:FALSE|TRUE)',
     'NULL': 'NULL',
+    'POSTING_FLAG': '[*!&#?%PSTCURM]',
+    'TRANSACTION_FLAG': '(?:txn|[*!&#?%PSTCURM])',
+    'CURRENCY': "(?:/[A-Z0-9'._-]*[A-Z](?:[A-Z0-9'._-]*[A-Z0-9])?|[A-Z][A-Z0-9'._-]*[A-Z0-9])",
+    'ACCOUNT': '(?:[^\x00-\x7f]|[A-Z])(?:(?:[A-Za-z0-9\\-]|[^\x00-\x7f]))*(?::(?:[A-Z0-9]|[^\x00-\x7f])(?:(?:[A-Za-z0-9\\-]|[^\x00-\x7f]))*)+',
+    'INDENT': '(?m:^)[ \t]+(?s:(?=[^ \t\r\n]))',
 }
 CODE = {'ValueError': 1, 'IndexError': 2, 'KeyError': 3, 'AssertionError': 4, 'TypeError': 5,
         'NotImplementedErr': 6, 'ModelStuck': 8}
 
 # class ids of the history cases in TokensRun.run_hist
 CLS = {'EscapedString': 1, 'InlineComment': 2, 'Tag': 3, 'Link': 4, 'MetaKey': 5, 'Currency': 6, 'Account': 6,
-       'BlockComment': 7, 'Date': 8, 'Number': 9, 'Bool': 10}
+       'BlockComment': 7, 'Date': 8, 'Number': 9, 'Bool': 10, 'TransactionFlag': 11, 'PostingFlag': 6, 'Indent': 6}
 # function ids of TokensRun.model_out: (parse, format, lex)
 FN = {'EscapedString': (4, 5, 6), 'BlockComment': (8, 9, 10), 'InlineComment': (11, 12, 13), 'Date': (14, 15, 16),
       'Number': (17, 18, 19), 'Tag': (20, 21, 22), 'Link': (23, 24, 25), 'MetaKey': (26, 27, 28),
-      'Bool': (29, 30, 31), 'Null': (None, None, 32), 'Account': (33, 34, None), 'Currency': (33, 34, None)}
+      'Bool': (29, 30, 31), 'Null': (None, None, 32), 'Account': (33, 34, 41), 'Currency': (33, 34, 42),
+      'TransactionFlag': (36, 37, 38), 'PostingFlag': (33, 34, 39), 'Indent': (33, 34, None)}
 
 LINEBREAKS = '\n\r\x0b\x0c\x1c\x1d\x1e\x85\u2028\u2029'
 
@@ -141,6 +157,13 @@ def tie(ctx, impl: Impl):
             ctx.fail('tie', f'grammar-text:{name}',
                      f'terminal {name} in beancount.lark is no longer the text lex_{name.lower()} was written for',
                      {'terminal': name, 'expected': want, 'found': found})
+        cont = PINNED_CONTINUATION.get(name)
+        if cont is not None:
+            idx = [i for i, ln in enumerate(lines) if head.match(ln)]
+            nxt = lines[idx[0] + 1].rstrip() if idx and idx[0] + 1 < len(lines) else None
+            if nxt != cont:
+                ctx.fail('tie', f'grammar-text:{name}', f'second alternative of terminal {name} changed',
+                         {'terminal': name, 'expected': cont, 'found': nxt})
     for name, want in PINNED_COMPILED.items():
         try:
             t = impl.conf.terminals_by_name[name]
@@ -231,13 +254,19 @@ def observe(impl: Impl, k: int, args: list[list[int]]):
     if k == 32: return lex('NULL')
     if k == 33: return res(lambda: M.Currency._parse_value(s0), lambda r: [L(r)])
     if k == 34: return [L(M.Account._format_value(s0))]
+    if k == 36: return res(lambda: M.TransactionFlag._parse_value(s0), lambda r: [L(r)])
+    if k == 37: return [L(M.TransactionFlag._format_value(s0))]
+    if k == 38: return lex('TRANSACTION_FLAG')
+    if k == 39: return lex('POSTING_FLAG')
+    if k == 41: return lex('ACCOUNT')
+    if k == 42: return lex('CURRENCY')
     if k == 35: return [L(str(payload_val('Number', a0)))]      # CPython's str(Decimal) vs number_format_str
     if k == 40: return observe_history(impl, args)
     raise ValueError(k)
 
 
 HIST_CLASS = {1: 'EscapedString', 2: 'InlineComment', 3: 'Tag', 4: 'Link', 5: 'MetaKey', 6: 'Currency',
-              7: 'BlockComment', 8: 'Date', 9: 'Number', 10: 'Bool'}
+              7: 'BlockComment', 8: 'Date', 9: 'Number', 10: 'Bool', 11: 'TransactionFlag'}
 
 
 def observe_history(impl: Impl, args):
@@ -354,6 +383,7 @@ def gen_number(rng, in_domain=True) -> decimal.Decimal:
     return decimal.Decimal((sign, tuple(ds), e))
 
 
+FLAGS = '*!&#?%PSTCURM'
 TAGCH = 'AZaz09-_/.bQ7'
 KEYCH = 'azAZ09-_k'
 
@@ -391,6 +421,8 @@ def gen_value(rng, cls: str):
     if cls == 'Bool': return rng.random() < 0.5
     if cls == 'Account': return gen_account(rng)
     if cls == 'Currency': return gen_currency(rng)
+    if cls in ('TransactionFlag', 'PostingFlag'): return rng.choice(FLAGS)
+    if cls == 'Indent': return rng.choice([' ', '  ', '    ', '\t', ' \t', '\t  '])
     raise ValueError(cls)
 
 
@@ -444,6 +476,8 @@ def gen_lexeme(rng, cls: str) -> str:
     if cls == 'Null': return 'NULL'
     if cls == 'Account': return gen_account(rng)
     if cls == 'Currency': return gen_currency(rng)
+    if cls == 'TransactionFlag': return rng.choice(['txn'] + list(FLAGS))
+    if cls == 'PostingFlag': return rng.choice(FLAGS)
     raise ValueError(cls)
 
 
@@ -451,7 +485,8 @@ def gen_noise(rng, cls: str) -> str:
     """Texts around the terminal's language: mutated lexemes, for the recogniser/lexer comparison."""
     s = gen_lexeme(rng, cls)
     alpha = {'Date': '0129-/x.', 'Number': '0123456789,,..x;', 'Tag': TAGCH + '# :', 'Link': TAGCH + '^ :',
-             'MetaKey': KEYCH + ': A', 'Bool': 'TRUEFALS ', 'Null': 'NUL '}.get(cls, TEXT_ALPHABET)
+             'MetaKey': KEYCH + ': A', 'Bool': 'TRUEFALS ', 'Null': 'NUL ',
+             'TransactionFlag': FLAGS + 'txnA ', 'PostingFlag': FLAGS + 'txA ', 'Account': "AZaz09-:_ \xe9", 'Currency': "AZ09'._-/a "}.get(cls, TEXT_ALPHABET)
     for _ in range(rng.choice([0, 1, 1, 2, 3])):
         r = rng.random()
         i = rng.randint(0, len(s))
@@ -480,6 +515,8 @@ def in_domain(cls: str, v, indent: str = '') -> bool:
         return isinstance(t.exponent, int) and t.sign == 0          # every finite non-negative Decimal
     if cls in ('Tag', 'Link'): return re.fullmatch(r'[A-Za-z0-9\-_/.]+', v) is not None
     if cls == 'MetaKey': return re.fullmatch(r'[a-z][a-zA-Z0-9\-_]+', v) is not None
+    if cls in ('TransactionFlag', 'PostingFlag'): return len(v) == 1 and v in FLAGS
+    if cls == 'Indent': return re.fullmatch(r'[ \t]+', v) is not None
     return True
 
 
@@ -494,7 +531,8 @@ def same_value(cls, a, b) -> bool:
     return type(a) is type(b) and a == b
 
 
-# independent reading of what a lexeme means (not the implementation's _parse_value)
+# independent reading of what a lexeme means: computed here from the text, never with the implementation's
+# _parse_value and never with Decimal(text) / strptime
 def oracle_meaning(cls: str, s: str):
     """('ok', value) | ('invalid',) | ('unknown',)"""
     if cls == 'EscapedString':
@@ -518,29 +556,42 @@ def oracle_meaning(cls: str, s: str):
         return ('ok', (lines[0][:lines[0].index(';')], '\n'.join(vals)))
     if cls == 'Date':
         y, m, d = (int(x) for x in re.split(r'[-/]', s))
-        try:
-            return ('ok', datetime.date(y, m, d))
-        except ValueError:
+        dim = [31, 29 if (y % 4 == 0 and y % 100 != 0) or y % 400 == 0 else 28, 31, 30, 31, 30, 31, 31, 30, 31, 30, 31]
+        if not (1 <= y <= 9999 and 1 <= m <= 12 and 1 <= d <= dim[m - 1]):
             return ('invalid',)
+        return ('ok', datetime.date(y, m, d))
     if cls == 'Number':
-        return ('ok', decimal.Decimal(s.replace(',', '')))
+        t = s.replace(',', '')
+        ip, _, fr = t.partition('.')
+        digits = tuple(int(c) for c in str(int(ip + fr or '0')))
+        return ('ok', decimal.Decimal((0, digits, -len(fr))))
     if cls in ('Tag', 'Link'): return ('ok', s[1:])
     if cls == 'MetaKey': return ('ok', s[:-1])
-    if cls == 'Bool': return ('ok', s == 'TRUE')
-    if cls in ('Account', 'Currency'): return ('ok', s)
+    if cls == 'Bool': return ('ok', {'TRUE': True, 'FALSE': False}[s])
+    if cls == 'TransactionFlag': return ('ok', '*' if s == 'txn' else s)
+    if cls in ('Account', 'Currency', 'PostingFlag', 'Indent'): return ('ok', s)
     return ('unknown',)
+
+
+def exact_value(cls, got, want) -> bool:
+    if cls == 'Number':
+        return isinstance(got, decimal.Decimal) and got == want and got.as_tuple() == want.as_tuple()
+    return type(got) is type(want) and got == want
 
 
 RULE_OF = {'EscapedString': 'ESCAPED_STRING', 'BlockComment': 'BLOCK_COMMENT', 'InlineComment': 'INLINE_COMMENT',
            'Date': 'DATE', 'Number': 'NUMBER', 'Tag': 'TAG', 'Link': 'LINK', 'MetaKey': 'META_KEY', 'Bool': 'BOOL',
-           'Null': 'NULL', 'Account': 'ACCOUNT', 'Currency': 'CURRENCY'}
+           'Null': 'NULL', 'Account': 'ACCOUNT', 'Currency': 'CURRENCY', 'TransactionFlag': 'TRANSACTION_FLAG',
+           'PostingFlag': 'POSTING_FLAG', 'Indent': 'INDENT'}
 # a ledger snippet in which the real parser must find the token again: (prefix, suffix)
 CONTEXT = {'EscapedString': ('2000-01-01 note Assets:Foo ', '\n'), 'Date': ('', ' open Assets:Foo\n'),
            'Number': ('2000-01-01 balance Assets:Foo ', ' USD\n'), 'InlineComment': ('2000-01-01 open Assets:Foo ', '\n'),
            'BlockComment': ('', '\n2000-01-01 open Assets:Foo\n'), 'Tag': ('2000-01-01 * "x" ', '\n'),
            'Link': ('2000-01-01 * "x" ', '\n'), 'MetaKey': ('2000-01-01 open Assets:Foo\n  ', ' 1\n'),
            'Bool': ('2000-01-01 custom "x" ', '\n'), 'Account': ('2000-01-01 open ', '\n'),
-           'Currency': ('2000-01-01 commodity ', '\n')}
+           'Currency': ('2000-01-01 commodity ', '\n'), 'TransactionFlag': ('2000-01-01 ', ' "x"\n'),
+           'PostingFlag': ('2000-01-01 *\n  ', ' Assets:Foo\n'), 'Indent': ('2000-01-01 *\n', 'Assets:Foo  1 USD\n'),
+           'Null': ('2000-01-01 open Assets:Foo\n  k: ', '\n')}
 
 
 def is_lexeme(impl: Impl, cls: str, s: str) -> bool:
@@ -562,6 +613,23 @@ def jv(cls, v):
     return val_payload(cls, v)
 
 
+def in_context(impl: Impl, cls: str, raw: str):
+    """Parse a ledger snippet containing raw with the real parser; (token of class cls at raw's place | None, tokens, text)."""
+    pre, suf = CONTEXT[cls]
+    text = pre + raw + suf
+    f = impl.p.parse(text, impl.models.File)
+    toks = list(f.token_store)
+    K = impl.K(cls)
+    pos, pick = 0, None
+    for x in toks:
+        if pos == len(pre) and type(x) is K and x.raw_text == raw:
+            pick = x
+        pos += len(x.raw_text)
+    if ''.join(x.raw_text for x in toks) != text:
+        pick = None
+    return pick, toks, text
+
+
 def check_value(impl: Impl, cls: str, v, indent: str = '', context: bool = True) -> list[dict]:
     """from_value(v).value == v; the produced text is exactly one token of the same type and value."""
     K = impl.K(cls)
@@ -575,38 +643,34 @@ def check_value(impl: Impl, cls: str, v, indent: str = '', context: bool = True)
     except Exception as e:
         bad('from_value', f'from_value({v!r}) raised {type(e).__name__}')
         return fails
-    if not same_value(cls, t.value, v):
+    if not exact_value(cls, t.value, v):
         bad('from_value', f'from_value({v!r}).value is {t.value!r}')
     raw = t.raw_text
-    try:
-        t2 = impl.p.parse_token(raw, K)
-    except Exception as e:
-        bad('relex', f'from_value({v!r}) wrote {raw!r}, which is not lexed as one {RULE_OF[cls]} token ({type(e).__name__})', raw)
-        return fails
-    if type(t2) is not K or not same_value(cls, t2.value, v) or t2.raw_text != raw or \
-            (cls == 'BlockComment' and t2.indent != indent):
-        bad('relex', f'from_value({v!r}) wrote {raw!r}, which reads back as {t2.value!r}', raw)
-    if context and cls in CONTEXT and not (cls == 'BlockComment' and indent):
-        pre, suf = CONTEXT[cls]
-        text = pre + raw + suf
+    if cls != 'Indent':      # an INDENT lexeme needs a following character: it is one lexeme only in context
         try:
-            f = impl.p.parse(text, impl.models.File)
-            toks = list(f.token_store)
+            t2 = impl.p.parse_token(raw, K)
         except Exception as e:
-            bad('context', f'{raw!r} (from_value({v!r})) makes the ledger {text!r} unparseable ({type(e).__name__})', raw)
+            bad('relex', f'from_value({v!r}) wrote {raw!r}, which is not lexed as one {RULE_OF[cls]} token ({type(e).__name__})', raw)
             return fails
-        mine = [x for x in toks if type(x) is K]
-        pick = mine[-1] if cls == 'EscapedString' else (mine[0] if mine else None)
-        if ''.join(x.raw_text for x in toks) != text or pick is None or pick.raw_text != raw \
-                or not same_value(cls, pick.value, v):
+        if type(t2) is not K or not same_value(cls, t2.value, v) or t2.raw_text != raw or \
+                (cls == 'BlockComment' and t2.indent != indent):
+            bad('relex', f'from_value({v!r}) wrote {raw!r}, which reads back as {t2.value!r}', raw)
+    if context and cls in CONTEXT and not (cls == 'BlockComment' and indent):
+        try:
+            pick, toks, text = in_context(impl, cls, raw)
+        except Exception as e:
+            bad('context', f'{raw!r} (from_value({v!r})) makes a ledger unparseable ({type(e).__name__})', raw)
+            return fails
+        if pick is None or not same_value(cls, pick.value, v):
             bad('context', f'{raw!r} (from_value({v!r})) inside {text!r} is lexed as '
                            f'{[(type(x).__name__, x.raw_text) for x in toks][:6]}', raw)
     return fails
 
 
-def check_lexeme(impl: Impl, cls: str, s: str) -> list[dict]:
-    """A lexeme whose meaning is a valid value is accepted and kept verbatim; its value is its meaning and
-    writing that value back gives a text with the same value."""
+def check_lexeme(impl: Impl, cls: str, s: str, context: bool = True) -> list[dict]:
+    """A lexeme whose meaning is a valid value is accepted and kept verbatim (by Parser.parse_token, by
+    from_raw_text and inside a parsed ledger); its value is what the text means (computed independently
+    here); writing that value back gives a text with the same value."""
     K = impl.K(cls)
     fails = []
     wit = {'fn': 'lexeme', 'cls': cls, 'text': L(s)}
@@ -615,24 +679,42 @@ def check_lexeme(impl: Impl, cls: str, s: str) -> list[dict]:
         fails.append({'sig': signature(cls, aspect, [s]), 'what': f'{cls}: {what}', 'witness': wit})
     if not is_lexeme(impl, cls, s):
         return fails
-    meaning = oracle_meaning(cls, s) if cls != 'Null' else ('unknown',)
-    try:
-        t = impl.p.parse_token(s, K)
-    except Exception as e:
-        if meaning[0] != 'invalid':
-            bad('verbatim', f'the {RULE_OF[cls]} lexeme {s!r} is refused ({type(e).__name__}: {str(e)[:60]})')
+    meaning = oracle_meaning(cls, s)
+    got = []
+    for how, f in (('Parser.parse_token', lambda: impl.p.parse_token(s, K)), ('from_raw_text', lambda: K.from_raw_text(s))):
+        try:
+            t = f()
+        except Exception as e:
+            if meaning[0] != 'invalid':
+                bad('verbatim', f'the {RULE_OF[cls]} lexeme {s!r} is refused by {how} ({type(e).__name__}: {str(e)[:60]})')
+            continue
+        if t.raw_text != s:
+            bad('verbatim', f'{how}: lexeme {s!r} is stored as {t.raw_text!r}')
+        got.append((how, t))
+    if context and cls in CONTEXT and meaning[0] != 'invalid' and not (cls == 'BlockComment' and s[0] != ';'):
+        try:
+            pick, toks, text = in_context(impl, cls, s)
+            if pick is not None:
+                got.append(('the parsed ledger ' + repr(text), pick))
+            # (a lexeme may legitimately be read differently inside a directive, e.g. a flag character that
+            #  starts a tag; only the value of the token found at that place is checked)
+        except Exception:
+            pass
+    if cls == 'Null' or meaning[0] != 'ok':
         return fails
-    if t.raw_text != s:
-        bad('verbatim', f'lexeme {s!r} is stored as {t.raw_text!r}')
-    if cls == 'Null':
-        return fails
-    if meaning[0] == 'ok':
-        # the value must describe the text: writing it back gives a text with the same value
+    for how, t in got:
+        val = (t.indent, t.value) if cls == 'BlockComment' else t.value
+        want = meaning[1]
+        ok = (val == want) if cls == 'BlockComment' else exact_value(cls, val, want)
+        if not ok:
+            bad('meaning', f'{how}: lexeme {s!r} means {want!r} but its value is {val!r}')
+    if got:
+        t = got[0][1]
         try:
             back = K.from_value(t.value, indent=t.indent) if cls == 'BlockComment' else K.from_value(t.value)
             t3 = impl.p.parse_token(back.raw_text, K)
             same = same_value(cls, t3.value, t.value) if cls != 'Number' else t3.value == t.value
-        except Exception as e:
+        except Exception:
             same = False
         if not same and in_domain(cls, t.value, t.indent if cls == 'BlockComment' else ''):
             bad('describe', f'lexeme {s!r} has value {t.value!r}, which does not write back to a text with that value')
@@ -684,6 +766,10 @@ def check_history(impl: Impl, cls: str, init, ops) -> list[dict]:
                 t.raw_text = S(p)
                 if t.raw_text != S(p):
                     bad(f'raw_text = {S(p)!r} stored {t.raw_text!r}')
+                m = oracle_meaning(cls, S(p)) if is_lexeme(impl, cls, S(p)) else ('unknown',)
+                val = (t.indent, t.value) if cls == 'BlockComment' else t.value
+                if m[0] == 'ok' and not (val == m[1] if cls == 'BlockComment' else exact_value(cls, val, m[1])):
+                    bad(f'raw_text = {S(p)!r} means {m[1]!r} but value is {val!r}')
             elif kind == 'value':
                 v = payload_val(cls, p)
                 seen.append(v)
@@ -704,8 +790,19 @@ def check_history(impl: Impl, cls: str, init, ops) -> list[dict]:
 
 # ------------------------------------------------------------------------------------------------------
 VALUE_CLASSES = ['EscapedString', 'BlockComment', 'InlineComment', 'Date', 'Number', 'Tag', 'Link', 'MetaKey',
-                 'Bool', 'Account', 'Currency']
-LEXEME_CLASSES = VALUE_CLASSES + ['Null']
+                 'Bool', 'Account', 'Currency', 'TransactionFlag', 'PostingFlag', 'Indent']
+LEXEME_CLASSES = [c for c in VALUE_CLASSES if c != 'Indent'] + ['Null']
+# fixed lexemes every run checks (text, and what it must mean is computed by oracle_meaning)
+LEXEME_CORPUS = {
+    'Number': ['1,234', '1,234.50', '12,345,678', '0', '007', '1.', '0.00', '123,456.', '999,999.999', '1234'],
+    'Date': ['2000-01-02', '2000/1/2', '0999-12-31', '02000-2-29', '2001-02-29', '2000-13-01', '10000-01-01', '2000-1/2'],
+    'EscapedString': ['""', '"a\\"b"', '"\\n"', '"\\\\"', '"a\nb"', '"\\\n"', '"\\f\\b\\t\\r\\x"'],
+    'InlineComment': [';', '; a', ';  a', ';a;b', '; \x0c'],
+    'BlockComment': [';', '; a\n; b', ';a\n; b', '; a\r\n;\r\n; b', '  ; a\n\t;b', '; a\x0cb', '; a\r\r\n; b'],
+    'Bool': ['TRUE', 'FALSE'], 'Null': ['NULL'], 'Tag': ['#a', '#a-b_c/d.e'], 'Link': ['^a', '^1.2'],
+    'MetaKey': ['ab:', 'aB-_9:'], 'TransactionFlag': ['txn', '*', '!', 'P', '#'], 'PostingFlag': ['*', '!', 'M'],
+    'Account': ['Assets:Foo', 'A:0', 'Assets:Foo-Bar:Baz9', '\xc9a:\u4e2d'], 'Currency': ['USD', 'A1', "A'._-9", '/ES', '/6A.B9', '/A'],
+}
 
 
 def gen_hist(rng, impl, cls):
@@ -794,8 +891,7 @@ def run_all(ctx: common.Ctx):
             add(pk, L(raw))
             add(lk, L(raw))
     for cls in LEXEME_CLASSES:
-        for _ in range(n):
-            s = gen_lexeme(rng, cls)
+        for s in LEXEME_CORPUS.get(cls, []) + [gen_lexeme(rng, cls) for _ in range(n)]:
             lexeme = is_lexeme(impl, cls, s)
             ctx.dist(f'lexeme:{cls}:{"yes" if lexeme else "no"}')
             report(check_lexeme(impl, cls, s))
@@ -830,7 +926,7 @@ def run_all(ctx: common.Ctx):
 
     # ---- assignment histories: monitor + correspondence
     hists = []
-    for cls in [c for c in VALUE_CLASSES if c != 'Account']:
+    for cls in [c for c in VALUE_CLASSES if c not in ('Account', 'PostingFlag', 'Indent')]:
         for _ in range(max(4, n // 3)):
             init, ops = gen_hist(rng, impl, cls)
             report(check_history(impl, cls, init, ops))
@@ -883,6 +979,8 @@ FN_NAME = {1: 'EscapedString.escape', 2: 'EscapedString.escape(aggressive)', 3: 
            21: 'Tag._format_value', 22: 'lex TAG', 23: 'Link._parse_value', 24: 'Link._format_value', 25: 'lex LINK',
            26: 'MetaKey._parse_value', 27: 'MetaKey._format_value', 28: 'lex META_KEY', 29: 'Bool._parse_value',
            30: 'Bool._format_value', 31: 'lex BOOL', 32: 'lex NULL', 33: 'Simple._parse_value', 35: 'str(Decimal) (model of the formatting as found)',
+           36: 'TransactionFlag._parse_value', 37: 'TransactionFlag._format_value', 38: 'lex TRANSACTION_FLAG',
+           39: 'lex POSTING_FLAG', 41: 'lex ACCOUNT', 42: 'lex CURRENCY',
            34: 'Simple._format_value', 40: 'token assignment history'}
 
 
